@@ -50,6 +50,7 @@ class TimeKeeper:
     """
 
     unit_table: typing.ClassVar = dict(s="seconds", m="minutes", h="hours", d="days")
+    numpy_unit: typing.ClassVar = dict(d="D")  # numpy spells the day unit with a capital
 
     def __init__(
         self,
@@ -140,7 +141,7 @@ class TimeKeeper:
     def nctime(self, unit: str = "s") -> float:
         """Get float value of model time"""
         delta = self.time - self.reference_time
-        return float(delta / np.timedelta64(1, unit))
+        return float(delta / np.timedelta64(1, self.numpy_unit.get(unit, unit)))
 
     def step2time(self, step: int) -> np.datetime64:
         if self.time_reversal:
@@ -172,7 +173,7 @@ class TimeKeeper:
             delta = self.start_time - stepnr * self.dt - self.reference_time
         else:
             delta = self.start_time + stepnr * self.dt - self.reference_time
-        return float(delta / np.timedelta64(1, unit))
+        return float(delta / np.timedelta64(1, self.numpy_unit.get(unit, unit)))
 
     def cf_units(self, unit: str = "s") -> str:
         """Return string with units for time following the CF standard"""
